@@ -187,7 +187,11 @@ int EGLPNUM_TYPENAME_ILLmps_next_field (
 	{
 		if (sscanf (state->p, "%s", state->field) == 1)
 		{
-			state->p += strlen (state->field) + 1;
+			state->p += strlen (state->field);
+			if (*state->p != '\0')
+			{
+				state->p++;								/* skip the separator, never the end of the line */
+			}
 			state->field_num++;
 			return 0;
 		}
